@@ -181,11 +181,14 @@ Definition read_entry (d : disk) (e : list byte) : res dfile :=
   | ML =>
       if 67 <? g then Diag 2 else
       match gran_at d g with
-      | 0 :: lh :: ll :: ah :: al :: _ =>
+      | z :: lh :: ll :: ah :: al :: _ =>
+          if negb (z =? 0) then Diag 2 else
           let n := N.to_nat (word lh ll) in
           do bs <- read_chain 70 d g 5 (n + 5);
           match skipn n bs with
-          | 255 :: 0 :: 0 :: eh :: el :: _ => Ok (mk (word ah al) (word eh el) (firstn n bs))
+          | p0 :: p1 :: p2 :: eh :: el :: _ =>
+              if (p0 =? 255) && (p1 =? 0) && (p2 =? 0) then Ok (mk (word ah al) (word eh el) (firstn n bs))
+              else Diag 3
           | _ => Diag 3
           end
       | _ => Diag 2
@@ -193,7 +196,8 @@ Definition read_entry (d : disk) (e : list byte) : res dfile :=
   | BASIC =>
       if 67 <? g then Diag 2 else
       match gran_at d g with
-      | 255 :: lh :: ll :: _ =>
+      | z :: lh :: ll :: _ =>
+          if negb (z =? 255) then Diag 2 else
           do bs <- read_chain 70 d g 3 (N.to_nat (word lh ll)); Ok (mk 0 0 bs)
       | _ => Diag 2
       end
